@@ -364,6 +364,8 @@ where
 
     // loop in case we get a sample that should be ignored, so we try next.
     loop {
+      #[cfg(rustdds_verif)]
+      crate::verif::hooks::tick();
       let (timestamp, cc) =
         match Self::try_take_undecoded(is_reliable, &topic_cache, latest_instant, last_read_sn)
           .next()
